@@ -130,6 +130,7 @@ def forbidden_scan():
             depth = 0
             for i, l in enumerate(open(p), 1):
                 code = re.sub(r"\(\*.*?\*\)", "", l)
+                code = re.sub(r'"(?:[^"]|"")*"', '""', code)     # string literals are data
                 if re.match(r"\s*Section\b", code):
                     depth += 1
                 if re.match(r"\s*End\b", code) and depth > 0:
@@ -347,3 +348,13 @@ def chunked(seq, n):
     seq = list(seq)
     k = max(1, (len(seq) + n - 1) // n)
     return [seq[i:i + k] for i in range(0, len(seq), k)]
+
+
+def coq_eval(name, text, timeout=600):
+    """Compile a scratch .v file (under .build/) against the built development; return coqc's output."""
+    d = os.path.join(BUILD, "cases")
+    os.makedirs(d, exist_ok=True)
+    p = os.path.join(d, name + ".v")
+    open(p, "w").write(text)
+    rc, out = sh(["coqc", "-Q", COQ, "MW", "-Q", d, "Cases", p], timeout=timeout)
+    return rc, out
